@@ -33,6 +33,13 @@ package contractcourt
 // carries the htlc's preimage; PutFinalHtlcOutcome is a transaction of the
 // wrapped database like in channeldb.
 //
+// The chain is a UTXO model (C13d): spend / confirmation notifications fire
+// only for the exact outpoint / txid AND pkScript registered and report the
+// real spending tx and input index; our sweeper re-signs zero-fee second-level
+// htlc txs with wallet inputs (txid != pre-signed txid, input index != 0) and
+// aggregates; every real wait of a resolver is recorded (case.watch) and an
+// outpoint a resolver is parked on at quiescence must exist on chain.
+//
 // The chain is a small deterministic environment that survives restarts:
 // outputs become spent when "our" sweep of them has been offered to the
 // sweeper (or from the start for a remote preimage claim), sweeps confirm,
@@ -60,7 +67,9 @@ import (
 	"testing"
 	"time"
 
+	"github.com/btcsuite/btcd/btcec/v2"
 	"github.com/btcsuite/btcd/chainhash/v2"
+	"github.com/btcsuite/btcd/txscript/v2"
 	"github.com/btcsuite/btclog/v2"
 	"github.com/btcsuite/btcd/wire/v2"
 	"github.com/btcsuite/btcwallet/walletdb"
@@ -152,6 +161,13 @@ type vrResolver struct {
 	Kind   string           `json:"kind"`   // commit|breach|timeout_remote|contest_timeout|contest_claim|timeout_local2|in_claim_remote|in_expire_remote|in_claim_local2|in_expire_local2
 	Idx    int64            `json:"idx"`    // htlc index
 	Stages []vrStage        `json:"stages"` // model script
+	// Pos: two-stage resolver on our commitment: input (= output) index of
+	// its second-level tx inside the sweeper's transactions (never 0)
+	Pos    int64            `json:"pos,omitempty"`
+	// Watch: per stage, what the resolver goroutine is parked on while the
+	// persisted progress is that stage: 0 an output of the commitment tx,
+	// 1 the output of its second-level tx, 2 no spend notification
+	Watch  []int64          `json:"watch"`
 	PTab   map[string]int64 `json:"ptab"`   // "type,incubating,resolved[,preimage persisted]" -> stages completed
 }
 
@@ -195,6 +211,9 @@ type vrSpec struct {
 	Known []int64     `json:"known,omitempty"`
 	// FarExp: no htlc is within the broadcast delta at the closing height
 	FarExp bool `json:"farexp,omitempty"`
+	// Taproot: the two-stage htlcs of our commitment are taproot outputs
+	// (v1 witness programs, control block in the pre-signed witness)
+	Taproot bool `json:"taproot,omitempty"`
 }
 
 type vrSnap struct {
@@ -223,6 +242,7 @@ type vrCase struct {
 	// notification): the restarted node must find it by lookup.
 	EnvCrash bool     `json:"envcrash"`
 	Trace   []vrItem  `json:"trace"`
+	Watch   [][]int64 `json:"watch"` // real waits: [key, type, incubating, resolved, preimage, level]
 	Outs    [][]int64 `json:"outs"` // cumulative set of outputs
 	NTx     int       `json:"ntx"`  // committed transactions in total
 	End     vrSnap    `json:"end"`
@@ -271,10 +291,22 @@ type vrWorld struct {
 	mu      sync.Mutex
 	trace   []vrItem
 	outs    map[string][]int64
+	// the chain is a UTXO model: utxo holds every output that exists on
+	// chain (spent or not) with its pkScript; spent the transaction that
+	// spent it.  Spend notifications fire only for the exact outpoint AND
+	// pkScript registered and report the actual spending tx / input index.
+	utxo    map[wire.OutPoint]*vrOut
 	spent   map[wire.OutPoint]*chainntnfs.SpendDetail
-	onSweep map[wire.OutPoint]*chainntnfs.SpendDetail
-	pending []wire.OutPoint // sweeps offered but not yet "confirmed"
-	waiters map[wire.OutPoint][]chan *chainntnfs.SpendDetail
+	onSweep map[wire.OutPoint]*chainntnfs.SpendDetail // spends by the REMOTE party
+	remote  []wire.OutPoint                          // ... that happen once the gate opens
+	pending []*vrPend                                // sweeps offered to our sweeper, not yet published
+	waiters map[wire.OutPoint][]*vrWaiter
+	witFor  map[wire.OutPoint]func(input.Input) wire.TxWitness
+	twoPos  map[wire.OutPoint]int         // htlc output of a two-stage resolver -> its input/output index in sweeper txs
+	stage2  map[wire.OutPoint]*wire.TxOut // ... -> the second-level output its spend creates
+	presig  map[wire.OutPoint]int64       // pre-signed second-level outpoints (never on chain for zero-fee htlcs) -> resolver key
+	walletSeq uint32
+	csvOK   bool
 	epochs  []*vrEpochSub
 	height  int32 // chain height (meaningful once the gate is open)
 	envPos  int   // next step of Spec.Env
@@ -284,6 +316,7 @@ type vrWorld struct {
 	needPre map[wire.OutPoint]lntypes.Hash    // htlc outputs only a preimage spend can claim
 	inPre   map[int64]lntypes.Preimage        // received htlc index -> its preimage
 	badSweeps int
+	watch   [][]int64 // real waits: [resolver key, type, incubating, resolved, preimage, level]
 	gateOK  bool
 	gateCh  chan struct{} // closed when the gate opens
 	bcastCh chan struct{} // closed when MarkCommitmentBroadcasted is durable
@@ -293,6 +326,25 @@ type vrWorld struct {
 	closeTx    *wire.MsgTx
 	htlcs      map[HtlcSetKey][]channeldb.HTLC
 	preimage   lntypes.Preimage
+}
+
+type vrOut struct {
+	pk    []byte
+	val   int64
+	owner int64 // key of the resolver the output belongs to (-1: nobody's)
+	level int64 // 0: output of the commitment tx, 1: output of a second-level tx
+}
+
+type vrWaiter struct {
+	ch    chan *chainntnfs.SpendDetail
+	op    wire.OutPoint
+	pk    []byte
+	fired bool
+}
+
+type vrPend struct {
+	inp input.Input
+	res chan sweep.Result
 }
 
 type vrEpochSub struct {
@@ -476,13 +528,114 @@ func (w *vrWorld) markSpentLocked(op wire.OutPoint, d *chainntnfs.SpendDetail) {
 		return
 	}
 	w.spent[op] = d
-	for _, ch := range w.waiters[op] {
+	out := w.utxo[op]
+	for _, wt := range w.waiters[op] {
+		// a notifier matches spends by outpoint AND script
+		if wt.fired || out == nil || !bytes.Equal(wt.pk, out.pk) {
+			continue
+		}
 		select {
-		case ch <- d:
+		case wt.ch <- d:
+			wt.fired = true
 		default:
 		}
 	}
-	delete(w.waiters, op)
+}
+
+func (w *vrWorld) walletIn() *wire.TxIn {
+	w.walletSeq++
+	var h chainhash.Hash
+	binary.BigEndian.PutUint32(h[:4], w.walletSeq)
+	binary.BigEndian.PutUint64(h[8:16], uint64(w.c.ID))
+	h[31] = 0xaa
+	return &wire.TxIn{PreviousOutPoint: wire.OutPoint{Hash: h}, Witness: wire.TxWitness{{7}}}
+}
+
+// publishLocked: our sweeper publishes ONE transaction for everything that
+// is pending and spendable, and it confirms.  Like the real sweeper it adds
+// wallet inputs (the txid of a zero-fee second-level htlc tx is therefore
+// never the pre-signed one) and aggregates; a SINGLE|ANYONECANPAY
+// second-level input sits at a non-zero index with its output at the same
+// index.
+func (w *vrWorld) publishLocked() {
+	nRes := 1 + len(w.twoPos)
+	var use []*vrPend
+	var rest []*vrPend
+	for _, pd := range w.pending {
+		op := pd.inp.OutPoint()
+		if d, ok := w.spent[op]; ok {
+			// offered again after a restart: the sweeper finds it spent
+			pd.res <- sweep.Result{Tx: d.SpendingTx}
+			continue
+		}
+		out, ok := w.utxo[op]
+		if !ok || (out.level == 1 && !w.csvOK) {
+			// not (yet) on chain, or the CSV delay of a second-level
+			// output has not passed (blocks are slow: it passes only
+			// while the node is quiescent): the sweeper keeps it
+			rest = append(rest, pd)
+			continue
+		}
+		dup := false
+		for _, u := range use {
+			dup = dup || u.inp.OutPoint() == op
+		}
+		if dup {
+			rest = append(rest, pd)
+			continue
+		}
+		use = append(use, pd)
+	}
+	w.pending = rest
+	if len(use) == 0 {
+		return
+	}
+	tx := &wire.MsgTx{Version: 2}
+	for i := 0; i < nRes; i++ {
+		tx.TxIn = append(tx.TxIn, w.walletIn())
+		tx.TxOut = append(tx.TxOut, &wire.TxOut{Value: 700 + int64(i), PkScript: []byte{0xa0, byte(i)}})
+	}
+	idx := map[wire.OutPoint]int{}
+	for _, pd := range use {
+		op := pd.inp.OutPoint()
+		wit := wire.TxWitness{{1}, {2}}
+		if f, ok := w.witFor[op]; ok {
+			wit = f(pd.inp)
+		}
+		in := &wire.TxIn{PreviousOutPoint: op, Witness: wit}
+		if pos, ok := w.twoPos[op]; ok {
+			tx.TxIn[pos] = in
+			o := *w.stage2[op]
+			tx.TxOut[pos] = &o
+			idx[op] = pos
+			continue
+		}
+		idx[op] = len(tx.TxIn)
+		tx.TxIn = append(tx.TxIn, in)
+		tx.TxOut = append(tx.TxOut, &wire.TxOut{Value: 600, PkScript: []byte{0xa1, byte(len(tx.TxIn))}})
+	}
+	txid := tx.TxHash()
+	for i, o := range tx.TxOut {
+		// wallet / change outputs exist too (nobody's: level 2)
+		w.utxo[wire.OutPoint{Hash: txid, Index: uint32(i)}] = &vrOut{
+			pk: o.PkScript, val: o.Value, owner: -1, level: 2}
+	}
+	for _, pd := range use {
+		op := pd.inp.OutPoint()
+		i := idx[op]
+		if _, ok := w.twoPos[op]; ok {
+			w.utxo[wire.OutPoint{Hash: txid, Index: uint32(i)}] = &vrOut{
+				pk: tx.TxOut[i].PkScript, val: tx.TxOut[i].Value,
+				owner: w.utxo[op].owner, level: 1,
+			}
+		}
+		opc, h := op, txid
+		w.markSpentLocked(op, &chainntnfs.SpendDetail{
+			SpentOutPoint: &opc, SpenderTxHash: &h, SpendingTx: tx,
+			SpenderInputIndex: uint32(i), SpendingHeight: vrCloseHeight + 50,
+		})
+		pd.res <- sweep.Result{Tx: tx}
+	}
 }
 
 // gate opens once the arbitrator has durably reached WaitingFullResolution
@@ -494,12 +647,13 @@ func (w *vrWorld) pump() {
 	if !w.gateOK || w.db.stopped.Load() {
 		return
 	}
-	for _, op := range w.pending {
+	for _, op := range w.remote {
 		if d, ok := w.onSweep[op]; ok {
 			w.markSpentLocked(op, d)
 		}
 	}
-	w.pending = nil
+	w.remote = nil
+	w.publishLocked()
 	for _, e := range w.epochs {
 		if e.last == w.height {
 			continue
@@ -546,13 +700,35 @@ func (w *vrWorld) addPreimage(p lntypes.Preimage, quiet bool) {
 func (w *vrWorld) envLeft() bool {
 	w.mu.Lock()
 	defer w.mu.Unlock()
-	return w.gateOK && w.envPos < len(w.c.Spec.Env)
+	return w.gateOK && (w.envPos < len(w.c.Spec.Env) || w.csvWaitingLocked())
+}
+
+func (w *vrWorld) csvWaitingLocked() bool {
+	for _, pd := range w.pending {
+		if out, ok := w.utxo[pd.inp.OutPoint()]; ok && out.level == 1 {
+			if _, sp := w.spent[pd.inp.OutPoint()]; !sp {
+				return true
+			}
+		}
+	}
+	return false
 }
 
 // envStep delivers the next environment event; false if there is none.
 // crash = the event was a quiet preimage write followed by a node stop.
 func (w *vrWorld) envStep() (ok bool, crash bool) {
 	w.mu.Lock()
+	if w.gateOK && w.csvWaitingLocked() {
+		// the CSV delay of the pending second-level outputs passes
+		w.csvOK = true
+		w.mu.Unlock()
+		w.db.touch()
+		w.pump()
+		w.mu.Lock()
+		w.csvOK = false
+		w.mu.Unlock()
+		return true, false
+	}
 	if !w.gateOK || w.envPos >= len(w.c.Spec.Env) {
 		w.mu.Unlock()
 		return false, false
@@ -578,27 +754,92 @@ func (w *vrWorld) envStep() (ok bool, crash bool) {
 
 type vrNotifier struct{ w *vrWorld }
 
-func (n *vrNotifier) RegisterConfirmationsNtfn(*chainhash.Hash, []byte, uint32, uint32,
-	...chainntnfs.NotifierOption) (*chainntnfs.ConfirmationEvent, error) {
+func (n *vrNotifier) RegisterConfirmationsNtfn(txid *chainhash.Hash, pk []byte, _ uint32, _ uint32,
+	_ ...chainntnfs.NotifierOption) (*chainntnfs.ConfirmationEvent, error) {
 
+	// confirms only for a transaction that is on chain and has an output
+	// with the registered script
+	w := n.w
 	ch := make(chan *chainntnfs.TxConfirmation, 1)
-	ch <- &chainntnfs.TxConfirmation{Tx: &wire.MsgTx{}}
+	w.mu.Lock()
+	for op, o := range w.utxo {
+		if txid != nil && op.Hash == *txid && bytes.Equal(o.pk, pk) {
+			ch <- &chainntnfs.TxConfirmation{Tx: &wire.MsgTx{}}
+			break
+		}
+	}
+	w.mu.Unlock()
 	return &chainntnfs.ConfirmationEvent{Confirmed: ch, Cancel: func() {}}, nil
 }
 
-func (n *vrNotifier) RegisterSpendNtfn(op *wire.OutPoint, _ []byte,
+func (n *vrNotifier) RegisterSpendNtfn(op *wire.OutPoint, pk []byte,
 	_ uint32) (*chainntnfs.SpendEvent, error) {
 
 	w := n.w
-	ch := make(chan *chainntnfs.SpendDetail, 1)
+	wt := &vrWaiter{ch: make(chan *chainntnfs.SpendDetail, 1), op: *op,
+		pk: append([]byte{}, pk...)}
 	w.mu.Lock()
-	if d, ok := w.spent[*op]; ok {
-		ch <- d
-	} else {
-		w.waiters[*op] = append(w.waiters[*op], ch)
+	out := w.utxo[*op]
+	owner, level := int64(-1), int64(9) // 9: the outpoint does not exist on chain
+	switch {
+	case out != nil && bytes.Equal(out.pk, pk):
+		owner, level = out.owner, out.level
+	case out != nil:
+		owner, level = out.owner, 8 // exists, but registered with another script
+	default:
+		if k, ok := w.presig[*op]; ok {
+			owner = k
+		}
+	}
+	if d, ok := w.spent[*op]; ok && level < 8 {
+		wt.ch <- d
+		wt.fired = true
+	}
+	w.waiters[*op] = append(w.waiters[*op], wt)
+	w.mu.Unlock()
+	if !wt.fired && !w.db.stopped.Load() {
+		// a real wait: record what the resolver is parked on together
+		// with the persisted state of its contract at this moment
+		row := []int64{owner, -1, 0, 0, 0, level}
+		for _, cn := range w.snapshot().Con {
+			if cn[0] == owner {
+				row = []int64{owner, cn[1], cn[2], cn[3], cn[4], level}
+			}
+		}
+		w.mu.Lock()
+		w.watch = append(w.watch, row)
+		w.mu.Unlock()
+	}
+	return &chainntnfs.SpendEvent{Spend: wt.ch, Cancel: func() {}}, nil
+}
+
+// badWaits: at quiescence every outpoint a resolver is still parked on must
+// exist on chain with the registered script; anything else can never fire.
+func (w *vrWorld) badWaits() {
+	w.mu.Lock()
+	var bad [][]int64
+	for op, l := range w.waiters {
+		for _, wt := range l {
+			if wt.fired {
+				continue
+			}
+			out := w.utxo[op]
+			owner := int64(-1)
+			if k, ok := w.presig[op]; ok {
+				owner = k
+			}
+			switch {
+			case out == nil:
+				bad = append(bad, []int64{8, 1, owner})
+			case !bytes.Equal(out.pk, wt.pk):
+				bad = append(bad, []int64{8, 2, out.owner})
+			}
+		}
 	}
 	w.mu.Unlock()
-	return &chainntnfs.SpendEvent{Spend: ch, Cancel: func() {}}, nil
+	for _, b := range bad {
+		w.emitOut(b...)
+	}
 }
 
 func (n *vrNotifier) RegisterBlockEpochNtfn(*chainntnfs.BlockEpoch) (
@@ -622,9 +863,10 @@ func (s *vrSweeper) SweepInput(inp input.Input, _ sweep.Params) (chan sweep.Resu
 	w := s.w
 	w.db.touch()
 	op := inp.OutPoint()
+	ch := make(chan sweep.Result, 2)
 	if w.db.stopped.Load() {
 		// the world has stopped: nothing reaches the sweeper any more
-		return make(chan sweep.Result, 1), nil
+		return ch, nil
 	}
 	w.mu.Lock()
 	if hsh, ok := w.needPre[op]; ok {
@@ -634,26 +876,12 @@ func (s *vrSweeper) SweepInput(inp input.Input, _ sweep.Params) (chan sweep.Resu
 		if !p.Matches(hsh) {
 			w.badSweeps++
 			w.mu.Unlock()
-			return make(chan sweep.Result, 1), nil
+			return ch, nil
 		}
 	}
-	w.pending = append(w.pending, op)
+	w.pending = append(w.pending, &vrPend{inp: inp, res: ch})
 	w.mu.Unlock()
 	w.pump()
-	ch := make(chan sweep.Result, 1)
-	w.mu.Lock()
-	open := w.gateOK
-	w.mu.Unlock()
-	if open {
-		ch <- sweep.Result{Tx: &wire.MsgTx{TxIn: []*wire.TxIn{{PreviousOutPoint: op}}}}
-	} else {
-		// confirmed later, when the gate opens
-		go func() {
-			<-w.gateCh
-			ch <- sweep.Result{Tx: &wire.MsgTx{
-				TxIn: []*wire.TxIn{{PreviousOutPoint: op}}}}
-		}()
-	}
 	return ch, nil
 }
 func (s *vrSweeper) RelayFeePerKW() chainfee.SatPerKWeight { return 253 }
@@ -842,45 +1070,87 @@ func (w *vrWorld) build() vrEvent {
 		addHtlc(key, mk(cl.Idx, false, int32(cl.OutIdx), 900, vrHash(cl.Idx)))
 	}
 
+	// scripts: every output has its own pkScript
+	pkOf := func(tag byte, key int64) []byte {
+		return []byte{0x00, 0x20, tag, byte(key), byte(key >> 8), byte(w.c.ID), byte(w.c.ID >> 8)}
+	}
+	sdOf := func(pk []byte, val int64) input.SignDescriptor {
+		return input.SignDescriptor{Output: &wire.TxOut{Value: val, PkScript: pk},
+			WitnessScript: []byte{0}}
+	}
+	// taproot: a v1 witness program for second-level outputs, and the htlc
+	// output key derived from (internal key, tapleaf) the way
+	// chainDetailsToWatch re-derives it from the pre-signed witness
+	_, tapPub := btcec.PrivKeyFromBytes([]byte{0x13, byte(w.c.ID), 0x07, 0x01})
+	tapCtrl := txscript.ControlBlock{
+		InternalKey: tapPub, LeafVersion: txscript.BaseLeafVersion,
+	}
+	tapCtrlBytes, err := tapCtrl.ToBytes()
+	if err != nil {
+		w.t.Fatal(err)
+	}
+	tapPk := func(ws []byte) []byte {
+		root := tapCtrl.RootHash(ws)
+		pk, err := txscript.PayToTaprootScript(
+			txscript.ComputeTaprootOutputKey(tapCtrl.InternalKey, root))
+		if err != nil {
+			w.t.Fatal(err)
+		}
+		return pk
+	}
+	p2tr := func(tag byte, key int64) []byte {
+		pk := make([]byte, 34)
+		pk[0], pk[1] = txscript.OP_1, txscript.OP_DATA_32
+		pk[2], pk[3], pk[4], pk[5], pk[6] = tag, byte(key), byte(key>>8), byte(w.c.ID), byte(w.c.ID>>8)
+		return pk
+	}
+	onChain := func(op wire.OutPoint, pk []byte, key int64) {
+		w.utxo[op] = &vrOut{pk: pk, val: 10000, owner: key, level: 0}
+	}
 	var commitRes *lnwallet.CommitOutputResolution
 	for _, r := range sp.Resolvers {
 		op := wire.OutPoint{Hash: w.commitHash, Index: uint32(r.Key)}
 		switch r.Kind {
 		case "commit":
+			pk := pkOf(1, r.Key)
 			commitRes = &lnwallet.CommitOutputResolution{
-				SelfOutPoint: op, SelfOutputSignDesc: vrSignDesc(), MaturityDelay: 144,
+				SelfOutPoint: op, SelfOutputSignDesc: sdOf(pk, 10000), MaturityDelay: 144,
 			}
+			onChain(op, pk, r.Key)
 			regKey(op, r.Key)
 		case "breach":
 			regKey(w.cp, r.Key)
-		case "timeout_remote":
-			// expiry within the broadcast delta at the close height
-			addHtlc(confKey, mk(r.Idx, false, int32(r.Key), vrCloseHeight+5, vrHash(r.Idx)))
+		case "timeout_remote", "contest_timeout":
+			// timeout_remote: expiry within the broadcast delta at the close height
+			exp := uint32(vrCloseHeight + 5)
+			if r.Kind == "contest_timeout" {
+				exp = 1500
+			}
+			pk := pkOf(2, r.Key)
+			addHtlc(confKey, mk(r.Idx, false, int32(r.Key), exp, vrHash(r.Idx)))
 			hr.OutgoingHTLCs = append(hr.OutgoingHTLCs, lnwallet.OutgoingHtlcResolution{
-				Expiry: vrCloseHeight + 5, ClaimOutpoint: op, SweepSignDesc: vrSignDesc(),
+				Expiry: exp, ClaimOutpoint: op, SweepSignDesc: sdOf(pk, 10000),
 			})
-			w.onSweep[op] = vrSpendBy(op, wire.TxWitness{{1}, {}, {2}}, 1)
-			regKey(op, r.Key)
-		case "contest_timeout":
-			addHtlc(confKey, mk(r.Idx, false, int32(r.Key), 1500, vrHash(r.Idx)))
-			hr.OutgoingHTLCs = append(hr.OutgoingHTLCs, lnwallet.OutgoingHtlcResolution{
-				Expiry: 1500, ClaimOutpoint: op, SweepSignDesc: vrSignDesc(),
-			})
-			w.onSweep[op] = vrSpendBy(op, wire.TxWitness{{1}, {}, {2}}, 1)
+			onChain(op, pk, r.Key)
+			// <sig> 0 <script>: not a preimage spend
+			w.witFor[op] = func(input.Input) wire.TxWitness { return wire.TxWitness{{1}, {}, {2}} }
 			regKey(op, r.Key)
 		case "contest_claim":
 			// the remote party claims with the preimage as soon as the
 			// commitment is confirmed
+			pk := pkOf(2, r.Key)
 			addHtlc(confKey, mk(r.Idx, false, int32(r.Key), 1500, preHash))
 			hr.OutgoingHTLCs = append(hr.OutgoingHTLCs, lnwallet.OutgoingHtlcResolution{
-				Expiry: 1500, ClaimOutpoint: op, SweepSignDesc: vrSignDesc(),
+				Expiry: 1500, ClaimOutpoint: op, SweepSignDesc: sdOf(pk, 10000),
 			})
-			d := vrSpendBy(op, wire.TxWitness{{}, {1}, {2}, w.preimage[:], {3}}, 2)
-			w.onSweep[op] = d
-			w.pending = append(w.pending, op) // visible once the gate opens
+			onChain(op, pk, r.Key)
+			w.onSweep[op] = vrSpendBy(op, wire.TxWitness{{}, {1}, {2}, w.preimage[:], {3}}, 2)
+			w.remote = append(w.remote, op) // visible once the gate opens
 			regKey(op, r.Key)
 		case "timeout_local2", "contest_timeout_local2":
-			// our commitment, anchor channel: second-level timeout tx.
+			// our commitment, zero-fee htlc (anchor) channel: second-level
+			// timeout tx, signed SINGLE|ANYONECANPAY: the sweeper re-signs
+			// it with a wallet input, so its txid is NOT the pre-signed one.
 			// contest_: the htlc is far from its expiry at the close
 			// (outgoing contest resolver first)
 			exp := uint32(vrCloseHeight + 5)
@@ -888,77 +1158,108 @@ func (w *vrWorld) build() vrEvent {
 				exp = 1500
 			}
 			addHtlc(confKey, mk(r.Idx, false, int32(r.Key), exp, vrHash(r.Idx)))
+			pk2 := pkOf(3, r.Key)
+			ws := []byte{0x51, byte(r.Key)}
+			// <0> <sender sig> <recvr sig> <0> <witness script>
+			twit := wire.TxWitness{{}, {1}, {2}, {}, ws}
+			if sp.Taproot {
+				// <recvr sig> <sender sig> <timeout script> <control block>
+				pk2 = p2tr(3, r.Key)
+				twit = wire.TxWitness{{1}, {2}, ws, tapCtrlBytes}
+			}
 			ttx := &wire.MsgTx{
 				Version: 2,
-				TxIn: []*wire.TxIn{{PreviousOutPoint: op,
-					Witness: wire.TxWitness{{}, {1}, {2}, {}, {0x51}}}},
-				TxOut: []*wire.TxOut{{Value: 9000, PkScript: []byte{9}}},
+				TxIn:    []*wire.TxIn{{PreviousOutPoint: op, Witness: twit}},
+				TxOut:   []*wire.TxOut{{Value: 9000, PkScript: pk2}},
 			}
+			pre := wire.OutPoint{Hash: ttx.TxHash(), Index: 0}
 			hr.OutgoingHTLCs = append(hr.OutgoingHTLCs, lnwallet.OutgoingHtlcResolution{
 				Expiry: exp, SignedTimeoutTx: ttx, CsvDelay: 4,
-				ClaimOutpoint: wire.OutPoint{Hash: ttx.TxHash(), Index: 0},
-				SweepSignDesc: vrSignDesc(),
+				ClaimOutpoint: pre,
+				SweepSignDesc: sdOf(pk2, 9000),
 				SignDetails: &input.SignDetails{
 					SignDesc: testSignDesc, SigHashType: 0x83, PeerSig: testSig,
 				},
 			})
-			th := ttx.TxHash()
-			opc := op
-			d1 := &chainntnfs.SpendDetail{
-				SpentOutPoint: &opc, SpenderTxHash: &th, SpendingTx: ttx,
-				SpenderInputIndex: 0, SpendingHeight: vrCloseHeight + 50,
+			// the htlc output pays to the script hash of the witness script
+			pk, err := input.WitnessScriptHash(ws)
+			if err != nil {
+				w.t.Fatal(err)
 			}
-			w.onSweep[op] = d1
-			op2 := wire.OutPoint{Hash: th, Index: 0}
-			w.onSweep[op2] = vrSpendBy(op2, wire.TxWitness{{1}, {2}}, 3)
+			if sp.Taproot {
+				pk = tapPk(ws)
+			}
+			onChain(op, pk, r.Key)
+			w.twoPos[op] = int(r.Pos)
+			w.stage2[op] = ttx.TxOut[0]
+			w.presig[pre] = r.Key
+			wit := ttx.TxIn[0].Witness
+			w.witFor[op] = func(input.Input) wire.TxWitness { return wit }
 			regKey(op, r.Key)
 		case "in_claim_remote", "in_expire_remote":
 			// received htlc on the remote commitment: claimable with the
 			// preimage by a direct spend; expiry 1500
 			pre := w.inPreimage(r.Idx)
+			pk := pkOf(4, r.Key)
 			addHtlc(confKey, mk(r.Idx, true, int32(r.Key), 1500, pre.Hash()))
 			hr.IncomingHTLCs = append(hr.IncomingHTLCs, lnwallet.IncomingHtlcResolution{
-				ClaimOutpoint: op, SweepSignDesc: vrSignDesc(), CsvDelay: 4,
+				ClaimOutpoint: op, SweepSignDesc: sdOf(pk, 10000), CsvDelay: 4,
 			})
+			onChain(op, pk, r.Key)
 			w.needPre[op] = pre.Hash()
 			// <sig> <preimage> <witness script>
-			w.onSweep[op] = vrSpendBy(op, wire.TxWitness{{1}, pre[:], {0}}, 4)
+			w.witFor[op] = func(inp input.Input) wire.TxWitness {
+				p := inp.Preimage().UnwrapOr(lntypes.Preimage{})
+				return wire.TxWitness{{1}, p[:], {0}}
+			}
 			regKey(op, r.Key)
 		case "in_claim_local2", "in_expire_local2":
-			// received htlc on OUR commitment, anchor channel: second-level
-			// success tx (needs the preimage), then its CSV-locked output
+			// received htlc on OUR commitment, zero-fee htlc channel:
+			// second-level success tx (needs the preimage; re-signed by the
+			// sweeper like the timeout tx), then its CSV-locked output
 			pre := w.inPreimage(r.Idx)
 			addHtlc(confKey, mk(r.Idx, true, int32(r.Key), 1500, pre.Hash()))
+			pk2 := pkOf(5, r.Key)
+			// <0> <sender sig> <recvr sig> <preimage> <witness script>
+			swit, preAt := wire.TxWitness{{}, {1}, {2}, {}, {0x52}}, 3
+			if sp.Taproot {
+				// <sender sig> <recvr sig> <preimage> <success script> <control block>
+				pk2 = p2tr(5, r.Key)
+				swit, preAt = wire.TxWitness{{1}, {2}, {}, {0x52}, tapCtrlBytes}, 2
+			}
 			stx := &wire.MsgTx{
 				Version: 2,
-				TxIn: []*wire.TxIn{{PreviousOutPoint: op,
-					Witness: wire.TxWitness{{}, {1}, {2}, {}, {0x52}}}},
-				TxOut: []*wire.TxOut{{Value: 10000}},
+				TxIn:    []*wire.TxIn{{PreviousOutPoint: op, Witness: swit}},
+				TxOut:   []*wire.TxOut{{Value: 10000, PkScript: pk2}},
 			}
 			sh := stx.TxHash()
 			op2 := wire.OutPoint{Hash: sh, Index: 0}
 			if r.Kind == "in_expire_local2" {
 				// never spent by us; the Timeout report of the contest
-				// resolver names the ClaimOutpoint: give it an index
-				// no other report of the scenario uses
-				op2.Index = 1
+				// resolver names the (pre-signed) ClaimOutpoint: give it
+				// an index no other report of the scenario uses
+				op2.Index = 77
 			}
+			sd := testSignDesc
+			sd.Output = &wire.TxOut{Value: 10000, PkScript: pkOf(6, r.Key)}
 			hr.IncomingHTLCs = append(hr.IncomingHTLCs, lnwallet.IncomingHtlcResolution{
 				SignedSuccessTx: stx, CsvDelay: 4, ClaimOutpoint: op2,
-				SweepSignDesc: vrSignDesc(),
+				SweepSignDesc: sdOf(pk2, 10000),
 				SignDetails: &input.SignDetails{
-					SignDesc: testSignDesc, SigHashType: 0x83, PeerSig: testSig,
+					SignDesc: sd, SigHashType: 0x83, PeerSig: testSig,
 				},
 			})
+			onChain(op, sd.Output.PkScript, r.Key)
 			w.needPre[op] = pre.Hash()
-			ctx := stx.Copy()
-			ctx.TxIn[0].Witness[3] = pre[:]
-			opc := op
-			w.onSweep[op] = &chainntnfs.SpendDetail{
-				SpentOutPoint: &opc, SpenderTxHash: &sh, SpendingTx: ctx,
-				SpenderInputIndex: 0, SpendingHeight: vrCloseHeight + 50,
+			w.twoPos[op] = int(r.Pos)
+			w.stage2[op] = stx.TxOut[0]
+			w.presig[op2] = r.Key
+			w.witFor[op] = func(inp input.Input) wire.TxWitness {
+				p := inp.Preimage().UnwrapOr(lntypes.Preimage{})
+				wit := append(wire.TxWitness{}, swit...)
+				wit[preAt] = p[:]
+				return wit
 			}
-			w.onSweep[op2] = vrSpendBy(op2, wire.TxWitness{{1}, {2}}, 5)
 			regKey(op, r.Key)
 		default:
 			w.t.Fatalf("unknown resolver kind %q", r.Kind)
@@ -1346,6 +1647,7 @@ func (w *vrWorld) run() {
 					}
 					continue
 				}
+				w.badWaits()
 				outcome = "idle"
 				continue
 			}
@@ -1366,7 +1668,8 @@ func (w *vrWorld) run() {
 			w.trace = append(w.trace, vrItem{T: "crash"})
 			// the chain keeps what was confirmed; volatile
 			// registrations die with the process
-			w.waiters = map[wire.OutPoint][]chan *chainntnfs.SpendDetail{}
+			w.waiters = map[wire.OutPoint][]*vrWaiter{}
+			w.pending = nil // the sweeper forgets what it was offered
 			w.epochs = nil
 			w.subs = nil
 			w.mu.Unlock()
@@ -1381,7 +1684,8 @@ func (w *vrWorld) run() {
 			// quiescent without terminating and crashes left: crash now
 			w.mu.Lock()
 			w.trace = append(w.trace, vrItem{T: "crash"})
-			w.waiters = map[wire.OutPoint][]chan *chainntnfs.SpendDetail{}
+			w.waiters = map[wire.OutPoint][]*vrWaiter{}
+			w.pending = nil // the sweeper forgets what it was offered
 			w.epochs = nil
 			w.subs = nil
 			w.mu.Unlock()
@@ -1396,6 +1700,10 @@ func (w *vrWorld) run() {
 	c.NTx = w.db.committed
 	w.mu.Lock()
 	c.Trace = w.trace
+	c.Watch = w.watch
+	if c.Watch == nil {
+		c.Watch = [][]int64{}
+	}
 	keys := make([]string, 0, len(w.outs))
 	for k := range w.outs {
 		keys = append(keys, k)
@@ -1456,7 +1764,12 @@ func vrRunCase(t *testing.T, dir string, c *vrCase) {
 		outs:    map[string][]int64{},
 		spent:   map[wire.OutPoint]*chainntnfs.SpendDetail{},
 		onSweep: map[wire.OutPoint]*chainntnfs.SpendDetail{},
-		waiters: map[wire.OutPoint][]chan *chainntnfs.SpendDetail{},
+		waiters: map[wire.OutPoint][]*vrWaiter{},
+		utxo:    map[wire.OutPoint]*vrOut{},
+		witFor:  map[wire.OutPoint]func(input.Input) wire.TxWitness{},
+		twoPos:  map[wire.OutPoint]int{},
+		stage2:  map[wire.OutPoint]*wire.TxOut{},
+		presig:  map[wire.OutPoint]int64{},
 		known:   map[lntypes.Hash]lntypes.Preimage{},
 		needPre: map[wire.OutPoint]lntypes.Hash{},
 		inPre:   map[int64]lntypes.Preimage{},
@@ -1491,16 +1804,19 @@ func vrSettle(i int64) []int64 { return []int64{2, i} }
 func vrResCommit() vrResolver {
 	return vrResolver{Key: 900, Kind: "commit",
 		Stages: []vrStage{{Outs: [][]int64{}, Rep: [][]int64{{900, 0}}}},
+		Watch:  []int64{2}, // waits for the sweeper's result only
 		PTab:   map[string]int64{"4,0,0": 0, "4,0,1": 1}}
 }
 func vrResBreach() vrResolver {
 	return vrResolver{Key: 999, Kind: "breach",
 		Stages: []vrStage{{Outs: [][]int64{}, Rep: [][]int64{}}},
+		Watch:  []int64{2},
 		PTab:   map[string]int64{"5,0,0": 0, "5,0,1": 1}}
 }
 func vrResTimeoutRemote(key, idx int64) vrResolver {
 	return vrResolver{Key: key, Kind: "timeout_remote", Idx: idx,
 		Stages: []vrStage{{Outs: [][]int64{vrFail(idx)}, Rep: [][]int64{{key, 3}}}},
+		Watch:  []int64{0},
 		PTab:   map[string]int64{"0,0,0": 0, "0,0,1": 1}}
 }
 func vrResContestTimeout(key, idx int64) vrResolver {
@@ -1509,20 +1825,23 @@ func vrResContestTimeout(key, idx int64) vrResolver {
 			{Outs: [][]int64{}, Rep: [][]int64{}},
 			{Outs: [][]int64{vrFail(idx)}, Rep: [][]int64{{key, 3}}},
 		},
-		PTab: map[string]int64{"2,0,0": 0, "0,0,0": 1, "0,0,1": 2}}
+		Watch: []int64{0, 0},
+		PTab:  map[string]int64{"2,0,0": 0, "0,0,0": 1, "0,0,1": 2}}
 }
 func vrResContestClaim(key, idx int64) vrResolver {
 	return vrResolver{Key: key, Kind: "contest_claim", Idx: idx,
 		Stages: []vrStage{{Outs: [][]int64{vrSettle(idx)}, Rep: [][]int64{{key, 0}}}},
+		Watch:  []int64{0},
 		PTab:   map[string]int64{"2,0,0": 0, "0,0,1": 1}}
 }
 func vrResTimeoutLocal2(key, idx int64) vrResolver {
 	return vrResolver{Key: key, Kind: "timeout_local2", Idx: idx,
 		Stages: []vrStage{
 			{Outs: [][]int64{vrFail(idx)}, Rep: [][]int64{{key, 4}}},
-			{Outs: [][]int64{}, Rep: [][]int64{{0, 3}}},
+			{Outs: [][]int64{}, Rep: [][]int64{{-1, 3}}},
 		},
-		PTab: map[string]int64{"0,0,0": 0, "0,1,0": 1, "0,1,1": 2}}
+		Watch: []int64{0, 1},
+		PTab:  map[string]int64{"0,0,0": 0, "0,1,0": 1, "0,1,1": 2}}
 }
 
 // ---- received (incoming) htlcs, non-dust.  lnd creates an
@@ -1540,7 +1859,8 @@ func vrResInClaimRemote(key, idx int64) vrResolver {
 			{Outs: [][]int64{}, Rep: [][]int64{}},
 			{Outs: [][]int64{vrFinal(idx, 1)}, Rep: [][]int64{{key, 0}}},
 		},
-		PTab: map[string]int64{"3,0,0,0": 0, "1,0,0,1": 1, "1,0,1,1": 2}}
+		Watch: []int64{2, 0},
+		PTab:  map[string]int64{"3,0,0,0": 0, "1,0,0,1": 1, "1,0,1,1": 2}}
 }
 
 // our commitment (anchor channel): swap; second-level success tx confirms ->
@@ -1551,9 +1871,10 @@ func vrResInClaimLocal2(key, idx int64) vrResolver {
 		Stages: []vrStage{
 			{Outs: [][]int64{}, Rep: [][]int64{}},
 			{Outs: [][]int64{}, Rep: [][]int64{}},
-			{Outs: [][]int64{vrFinal(idx, 1)}, Rep: [][]int64{{0, 0}, {key, 4}}},
+			{Outs: [][]int64{vrFinal(idx, 1)}, Rep: [][]int64{{-1, 0}, {key, 4}}},
 		},
-		PTab: map[string]int64{"3,0,0,0": 0, "1,0,0,1": 1, "1,1,0,1": 2, "1,1,1,1": 3}}
+		Watch: []int64{2, 0, 1},
+		PTab:  map[string]int64{"3,0,0,0": 0, "1,0,0,1": 1, "1,1,0,1": 2, "1,1,1,1": 3}}
 }
 
 // preimage never learned: at the expiry height the contest resolver gives up:
@@ -1567,10 +1888,11 @@ func vrResInExpire(key, idx int64, local bool) vrResolver {
 	}
 	rk := key // the report names htlcResolution.ClaimOutpoint
 	if local {
-		rk = 1
+		rk = 77
 	}
 	return vrResolver{Key: key, Kind: kind, Idx: idx,
 		Stages: []vrStage{{Outs: [][]int64{vrFinal(idx, 0)}, Rep: [][]int64{{rk, 3}}}},
+		Watch:  []int64{2},
 		PTab:   map[string]int64{"3,0,0,0": 0, "3,0,1,0": 1}}
 }
 
@@ -1581,12 +1903,46 @@ func vrResContestTimeoutLocal2(key, idx int64) vrResolver {
 		Stages: []vrStage{
 			{Outs: [][]int64{}, Rep: [][]int64{}},
 			{Outs: [][]int64{vrFail(idx)}, Rep: [][]int64{{key, 4}}},
-			{Outs: [][]int64{}, Rep: [][]int64{{0, 3}}},
+			{Outs: [][]int64{}, Rep: [][]int64{{-1, 3}}},
 		},
-		PTab: map[string]int64{"2,0,0": 0, "0,0,0": 1, "0,1,0": 2, "0,1,1": 3}}
+		Watch: []int64{0, 0, 1},
+		PTab:  map[string]int64{"2,0,0": 0, "0,0,0": 1, "0,1,0": 2, "0,1,1": 3}}
 }
 
+// vrScenarios: the scenario list with the sweeper positions of the two-stage
+// resolvers on our commitment filled in (1 + rank of the key: never 0) and
+// the reports that name a second-level outpoint patched accordingly.
 func vrScenarios() []vrSpec {
+	specs := vrScenarios0()
+	for si := range specs {
+		sp := &specs[si]
+		var keys []int64
+		for _, r := range sp.Resolvers {
+			if strings.HasSuffix(r.Kind, "_local2") {
+				keys = append(keys, r.Key)
+			}
+		}
+		sort.Slice(keys, func(i, j int) bool { return keys[i] < keys[j] })
+		for ri := range sp.Resolvers {
+			r := &sp.Resolvers[ri]
+			for i, k := range keys {
+				if k == r.Key && strings.HasSuffix(r.Kind, "_local2") {
+					r.Pos = int64(i + 1)
+				}
+			}
+			for _, st := range r.Stages {
+				for _, rp := range st.Rep {
+					if rp[0] == -1 {
+						rp[0] = r.Pos
+					}
+				}
+			}
+		}
+	}
+	return specs
+}
+
+func vrScenarios0() []vrSpec {
 	e := []int64{}
 	return []vrSpec{
 		{Name: "coop", Kind: "coop", FailsDefault: e, FailsClosed: e, FinalsClosed: e,
@@ -1698,6 +2054,15 @@ func vrScenarios() []vrSpec {
 			Env: []vrEnvStep{{H: 2000}}, FarExp: true,
 			Resolvers: []vrResolver{vrResCommit(), vrResContestTimeoutLocal2(22, 1),
 				vrResInClaimLocal2(27, 7)}},
+		// ---- taproot two-stage htlcs on our commitment: offered (timeout
+		// now), offered far from expiry (contest first), received with the
+		// preimage known (success path); three second-level inputs share
+		// the sweeper's transactions (input indexes 1..3) ----
+		{Name: "local_taproot2", Kind: "local", UserFC: true, Taproot: true, FailsDefault: e,
+			FailsClosed: e, FinalsClosed: e, H0: 600, Known: []int64{7},
+			Env: []vrEnvStep{{H: 2000}},
+			Resolvers: []vrResolver{vrResCommit(), vrResTimeoutLocal2(22, 1),
+				vrResContestTimeoutLocal2(23, 4), vrResInClaimLocal2(27, 7)}},
 	}
 }
 
